@@ -61,6 +61,7 @@ static struct {
   int obs_value;
   /* client side observations */
   int n_resp, n_nack, last_code, last_nack, last_obs;
+  int n_plain, last_plain_code;   /* responses without Observe option (answer to a cancel) */
   size_t last_len;
   uint32_t last_hash;
   int resp_bad;            /* a delivered payload was not the expected one */
@@ -69,6 +70,9 @@ static struct {
   size_t put_len;
   uint32_t put_hash;
   size_t cursor;           /* next log entry to route */
+  uint8_t canary_tok[8];
+  size_t canary_tl;
+  int canary_ok;
 } W;
 
 #define BIG_LEN 2500
@@ -96,10 +100,20 @@ static coap_response_t on_resp(coap_session_t *s, const coap_pdu_t *sent, const 
   {
     coap_opt_iterator_t oi;
     W.last_obs = coap_check_option(rcv, COAP_OPTION_OBSERVE, &oi) != NULL;
+    if (!W.last_obs) {
+      W.n_plain++;
+      W.last_plain_code = W.last_code;
+    }
   }
   coap_get_data_large(rcv, &len, &data, &off, &tot);
   W.last_len = len;
   W.last_hash = fnv(data, len);
+  {
+    coap_bin_const_t t = coap_pdu_get_token(rcv);
+    if (W.canary_tl && t.length == W.canary_tl && memcmp(t.s, W.canary_tok, t.length) == 0 &&
+        W.last_code == COAP_RESPONSE_CODE_CONTENT && len == 5 && memcmp(data, "hello", 5) == 0)
+      W.canary_ok++;
+  }
   return COAP_RESPONSE_OK;
 }
 
@@ -290,16 +304,14 @@ static int canary(void) {
     if (!W.cs) return 0;
   }
   (void)made_cs;
-  int before = W.n_resp;
-  W.last_code = 0;
-  W.last_len = 0;
-  coap_pdu_t *p = mk_req(W.cs, COAP_MESSAGE_CON, COAP_REQUEST_CODE_GET, "r", NULL, NULL);
+  W.canary_ok = 0;
+  coap_pdu_t *p = mk_req(W.cs, COAP_MESSAGE_CON, COAP_REQUEST_CODE_GET, "r", W.canary_tok,
+                         &W.canary_tl);
   if (!p) return 0;
   if (coap_send(W.cs, p) == COAP_INVALID_MID) return 0;
   pump(400000);
-  /* the answer to the canary is the last response seen */
-  return W.n_resp > before && W.last_code == COAP_RESPONSE_CODE_CONTENT && W.last_len == 5 &&
-         W.last_hash == fnv((const uint8_t *)"hello", 5);
+  /* answered exactly once with the expected payload */
+  return W.canary_ok == 1;
 }
 
 /* ------------------------------------------------------------------ scenarios
@@ -486,22 +498,24 @@ static void sc_observe(void) {
   t.length = tl;
   t.s = tok;
   int before = W.n_resp;
-  W.last_code = 0;
+  int plain0 = W.n_plain;
+  W.last_plain_code = 0;
   int c = coap_cancel_observe(W.cs, &t, COAP_MESSAGE_CON);
   pump(120000);
-  R("cancel=%d got=%d code=%d", c, W.n_resp - before, W.last_code);
-  int cancelled = c && W.n_resp > before && W.last_code == COAP_RESPONSE_CODE_CONTENT;
+  /* the answer to the cancellation is the response without an Observe option */
+  R("cancel=%d got=%d code=%d", c, W.n_plain - plain0, W.last_plain_code);
+  int cancelled = c && W.n_plain > plain0 && W.last_plain_code == COAP_RESPONSE_CODE_CONTENT;
   if (registered && !cancelled) {
     /* the cancellation failed visibly: repeat it with memory available */
     int a = fa_armed;
     fa_armed = 0;
-    before = W.n_resp;
-    W.last_code = 0;
+    plain0 = W.n_plain;
+    W.last_plain_code = 0;
     int c2 = coap_cancel_observe(W.cs, &t, COAP_MESSAGE_CON);
     pump(120000);
     fa_armed = a;
     R("recancel=%d", c2);
-    cancelled = c2 && W.n_resp > before && W.last_code == COAP_RESPONSE_CODE_CONTENT;
+    cancelled = c2 && W.n_plain > plain0 && W.last_plain_code == COAP_RESPONSE_CODE_CONTENT;
   }
   /* after a successful cancel no further notification must arrive */
   before = W.n_resp;
